@@ -496,6 +496,7 @@ func (p *Prog) buildSCC() {
 			}
 		}
 	}
+	p.callees = adj
 	// sort.Stable calls back into Less/Swap/Len of the adapters
 	for _, n := range names {
 		if n == "jpfSortBy" {
